@@ -274,6 +274,7 @@ func Run(dir, tier string, seed int64) error {
 		body := s.body()
 		// abstract inputs via exported functions
 		coqDec, coqSP, coqUsr := "None", "None", "None"
+		spDoc := "None"
 		answeredPossible := false
 		if q, err := samlxml.DecodeAttributeQuery(body); err == nil && q != nil {
 			iss, nid := "None", "None"
@@ -304,6 +305,7 @@ func Run(dir, tier string, seed int64) error {
 			if q.Issuer != nil && !(s.Fault != nil && s.Fault.Op == "GetEntityByID") {
 				if sp, ok := st.SPs[q.Issuer.Text]; ok {
 					coqSP = sso.CoqSP(sp)
+					spDoc = st.SPDocTerm(sp)
 					answeredPossible = true
 				}
 			}
@@ -335,8 +337,8 @@ func Run(dir, tier string, seed int64) error {
 		}
 		obs := fmt.Sprintf("{| ao_kind := %s; ao_irt := %s; ao_issuer := %s; ao_audience := %s; ao_nameid := %s; ao_attrs := %s |}",
 			coqgen.Z(int64(o.Kind)), coqgen.Bytes(o.IRT), coqgen.Bytes(o.Issuer), coqgen.Bytes(o.Audience), coqgen.Bytes(o.NameID), coqgen.List(as))
-		coq := fmt.Sprintf("{| ac_id := %s; ac_dec := %s; ac_sp := %s; ac_verify := false; ac_locs := %s; ac_user := %s; ac_cert1 := %s; ac_cert2 := %s; ac_sign := %s; ac_eid := %s; ac_obs := %s; ac_doc := %s |}",
-			coqgen.Z(int64(id)), coqDec, coqSP, coqgen.BytesList([]string{attrLoc}), coqUsr, coqgen.Bool(cert1), coqgen.Bool(cert2), coqgen.Bool(signOK), coqgen.Bytes(issuer+"/metadata"), obs, idp.DocTreeTerm([]byte(body)))
+		coq := fmt.Sprintf("{| ac_id := %s; ac_dec := %s; ac_sp := %s; ac_verify := false; ac_locs := %s; ac_user := %s; ac_cert1 := %s; ac_cert2 := %s; ac_sign := %s; ac_eid := %s; ac_obs := %s; ac_spdoc := %s; ac_doc := %s |}",
+			coqgen.Z(int64(id)), coqDec, coqSP, coqgen.BytesList([]string{attrLoc}), coqUsr, coqgen.Bool(cert1), coqgen.Bool(cert2), coqgen.Bool(signOK), coqgen.Bytes(issuer+"/metadata"), obs, spDoc, idp.DocTreeTerm([]byte(body)))
 		desc := map[string]interface{}{"scenario": s, "body": body, "observed": o, "reply_kind": rep.Kind, "code": rep.Code, "panic": rep.Panic}
 		run.AddCase(id, coq, desc)
 		run.Count("mut=" + s.Mut)
